@@ -174,6 +174,9 @@ func c20BinMutations(l c20Layer) []c20Mut {
 	}
 	hdr := map[int]string{}
 	for _, f := range l.Fields {
+		if f.Kind == "packed" {
+			continue // bit-packed value sections get their own mutations below (they are hundreds of bytes long)
+		}
 		for i := f.Off; i < f.Off+f.Len && i < n; i++ {
 			bytesToFlip[i] = f.Name
 			hdr[i] = f.Name
@@ -216,6 +219,20 @@ func c20BinMutations(l c20Layer) []c20Mut {
 				}
 				emit("set-"+f.Name, fmt.Sprintf("%s field at %d := %d (was %d)", f.Name, f.Off, v, f.N), c20PutField(l.Data, f, v))
 			}
+		case "packed":
+			// every packed value := all ones (the largest index of its bit width: outside the list unless the list length is
+			// a power of two); only the first / only the last value; every value := 0
+			fill := func(class, desc string, from, to int, v byte) {
+				d := append([]byte{}, l.Data...)
+				for i := from; i < to; i++ {
+					d[i] = v
+				}
+				emit("packed-"+class, fmt.Sprintf("%s at %d (%d bytes, list of %d): %s", f.Name, f.Off, f.Len, f.N, desc), d)
+			}
+			fill("all-ones", "every value := all ones", f.Off, f.Off+f.Len, 0xFF)
+			fill("first-ones", "first byte := 0xFF", f.Off, f.Off+1, 0xFF)
+			fill("last-ones", "last byte := 0xFF", f.Off+f.Len-1, f.Off+f.Len, 0xFF)
+			fill("all-zero", "every value := 0", f.Off, f.Off+f.Len, 0x00)
 		case "index":
 			for _, v := range c20IndexValues(f) {
 				emit("index-"+f.Name, fmt.Sprintf("%s index at %d := %d (table size %d)", f.Name, f.Off, v, f.N), c20PutField(l.Data, f, v))
